@@ -57,7 +57,11 @@ def run_shard(prop, seed, sh, tmpdir):
     while lo < sh.hi:
         fpf = os.path.join(tmpdir, f"fp-{sh.jid}-{lo}.bin")
         args = [prop, "--seed", str(seed), "--lo", str(lo), "--hi", str(sh.hi), "--markers", "--fp-file", fpf]
-        for k, v in sorted(job.get("params", {}).items()):
+        params = dict(job.get("params", {}))
+        if eng == "miri" and "big_cap" not in params:
+            # the interpreter is ~10^4 times slower: no large-order strata
+            params["big_cap"] = params.get("max_order", 8)
+        for k, v in sorted(params.items()):
             args += ["-p", f"{k}={v}"]
         argv, env = engines.command(eng, args, cpus=job.get("cpus"), miri_seed=job.get("miri_seed"), miri_cpus=job.get("miri_cpus"))
         outp = os.path.join(tmpdir, f"out-{sh.jid}-{lo}.txt")
